@@ -25,6 +25,7 @@ import (
 	"path/filepath"
 	"strconv"
 	"strings"
+	"sync"
 	"testing"
 	"time"
 
@@ -42,6 +43,8 @@ type c24Vec struct {
 	Ims string   `json:"ims"`
 	M   string   `json:"m"`
 	St  []int    `json:"st"`
+	// "seq" vectors: requests sent one after the other to the same handler and file
+	Steps []c24Vec `json:"steps"`
 }
 
 var c24Mtime = time.Date(2021, 3, 4, 5, 6, 7, 500_000_000, time.UTC) // note the half second
@@ -65,6 +68,39 @@ type c24Srv struct {
 	br   *bufio.Reader
 	done chan struct{}
 	stop chan struct{}
+
+	// gate: when armed with n > 0, every handler invocation waits AFTER the FS handler
+	// returned (i.e. while it still holds its file reader) until n handlers got there, so
+	// that n readers of the same file are alive at once and all go back to the pool.
+	gmu     sync.Mutex
+	gwant   int
+	garrive int
+	grel    chan struct{}
+}
+
+func (s *c24Srv) arm(n int) {
+	s.gmu.Lock()
+	s.gwant, s.garrive, s.grel = n, 0, make(chan struct{})
+	s.gmu.Unlock()
+}
+
+func (s *c24Srv) gate() {
+	s.gmu.Lock()
+	if s.gwant == 0 {
+		s.gmu.Unlock()
+		return
+	}
+	s.garrive++
+	rel := s.grel
+	if s.garrive >= s.gwant {
+		s.gwant = 0
+		close(rel)
+	}
+	s.gmu.Unlock()
+	select {
+	case <-rel:
+	case <-time.After(20 * time.Second): // never a verdict: just go on
+	}
 }
 
 func c24Start(t *testing.T, kind, root, croot string) *c24Srv {
@@ -88,21 +124,52 @@ func c24Start(t *testing.T, kind, root, croot string) *c24Srv {
 	case "osfs-nocache":
 		f.SkipCache = true
 	}
-	s := &Server{Handler: f.NewRequestHandler(), Logger: log.New(io.Discard, "", 0)}
-	ln := fasthttputil.NewInmemoryListener()
-	done := make(chan struct{})
-	go func() { s.Serve(ln); close(done) }() //nolint:errcheck
-	c, err := ln.Dial()
-	if err != nil {
+	srv := &c24Srv{kind: kind, stop: stop}
+	fsh := f.NewRequestHandler()
+	// The FS handler is the real one; the wrapper only turns a panic of the library into an
+	// attributable 500 response (header X-Verif-Panic) instead of killing the test process.
+	h := func(ctx *RequestCtx) {
+		defer func() {
+			if p := recover(); p != nil {
+				msg := strings.NewReplacer("\r", " ", "\n", " ").Replace(fmt.Sprint(p))
+				ctx.Response.Reset()
+				ctx.Response.Header.Set("X-Verif-Panic", msg)
+				ctx.SetStatusCode(StatusInternalServerError)
+				ctx.SetBodyString("panic in handler: " + msg)
+			}
+		}()
+		fsh(ctx)
+		srv.gate()
+	}
+	s := &Server{Handler: h, Logger: log.New(io.Discard, "", 0)}
+	srv.ln = fasthttputil.NewInmemoryListener()
+	srv.done = make(chan struct{})
+	go func() { s.Serve(srv.ln); close(srv.done) }() //nolint:errcheck
+	if err := srv.redial(); err != nil {
 		t.Fatalf("dial: %v", err)
 	}
-	return &c24Srv{kind: kind, ln: ln, c: c, br: bufio.NewReader(c), done: done, stop: stop}
+	return srv
+}
+
+func (s *c24Srv) redial() error {
+	if s.c != nil {
+		s.c.Close()
+	}
+	c, err := s.ln.Dial()
+	if err != nil {
+		return err
+	}
+	s.c, s.br = c, bufio.NewReader(c)
+	return nil
 }
 
 func (s *c24Srv) Close() {
 	s.c.Close()
 	s.ln.Close()
-	<-s.done
+	select {
+	case <-s.done:
+	case <-time.After(30 * time.Second):
+	}
 	close(s.stop)
 }
 
@@ -112,7 +179,7 @@ type c24Resp struct {
 	body   []byte
 }
 
-func (s *c24Srv) do(method, path, rng string, hasRange bool, ims, ae string) (*c24Resp, error) {
+func c24Wire(method, path, rng string, hasRange bool, ims, ae string) []byte {
 	var sb strings.Builder
 	sb.WriteString(method + " " + path + " HTTP/1.1\r\nHost: c24\r\n")
 	if hasRange {
@@ -125,15 +192,15 @@ func (s *c24Srv) do(method, path, rng string, hasRange bool, ims, ae string) (*c
 		sb.WriteString("Accept-Encoding: " + ae + "\r\n")
 	}
 	sb.WriteString("\r\n")
-	s.c.SetDeadline(time.Now().Add(60 * time.Second)) //nolint:errcheck
-	if _, err := s.c.Write([]byte(sb.String())); err != nil {
-		return nil, err
-	}
+	return []byte(sb.String())
+}
+
+func c24ReadResp(br *bufio.Reader, method string) (*c24Resp, error) {
 	var resp Response
 	if method == "HEAD" {
 		resp.SkipBody = true
 	}
-	if err := resp.Read(s.br); err != nil {
+	if err := resp.Read(br); err != nil {
 		return nil, err
 	}
 	r := &c24Resp{status: resp.StatusCode(), hdr: map[string]string{}, body: append([]byte(nil), resp.Body()...)}
@@ -148,6 +215,25 @@ func (s *c24Srv) do(method, path, rng string, hasRange bool, ims, ae string) (*c
 	}
 	if ce := resp.Header.ContentEncoding(); len(ce) > 0 {
 		r.hdr["Content-Encoding"] = string(ce)
+	}
+	return r, nil
+}
+
+// do sends one request on the main connection. After an error (the server dropped the
+// connection, sent an unparsable or short response) a fresh connection is dialled, so one
+// broken response does not hide the following ones.
+func (s *c24Srv) do(method, path, rng string, hasRange bool, ims, ae string) (*c24Resp, error) {
+	s.c.SetDeadline(time.Now().Add(60 * time.Second)) //nolint:errcheck
+	_, err := s.c.Write(c24Wire(method, path, rng, hasRange, ims, ae))
+	var r *c24Resp
+	if err == nil {
+		r, err = c24ReadResp(s.br, method)
+	}
+	if err != nil {
+		if rerr := s.redial(); rerr != nil {
+			return nil, fmt.Errorf("%v (and redial failed: %v)", err, rerr)
+		}
+		return nil, err
 	}
 	return r, nil
 }
@@ -232,7 +318,7 @@ func TestVerifC24(t *testing.T) {
 		"after":   string(AppendHTTPDate(nil, base.Add(time.Second))),
 	}
 
-	var reqs []c24Vec
+	var reqs, seqs []c24Vec
 	npbr, npbrNontriv := 0, 0
 	vfEachLine(t, "", func(line []byte) {
 		var v c24Vec
@@ -252,6 +338,9 @@ func TestVerifC24(t *testing.T) {
 		case "req":
 			mkfile(v.N)
 			reqs = append(reqs, v)
+		case "seq":
+			mkfile(v.N)
+			seqs = append(seqs, v)
 		default:
 			t.Fatalf("unknown vector kind %q", v.K)
 		}
@@ -283,43 +372,147 @@ func TestVerifC24(t *testing.T) {
 		}
 	}
 
-	nreq, nreqNontriv := 0, 0
+	// Everything above ran without a server; make those verdicts durable before any code
+	// that could take the process down.
+	c24Flush()
+
+	nreq, nreqNontriv, nseq, npooled := 0, 0, 0, 0
 	for _, kind := range kinds {
+		// (1) independent requests
 		srv := c24Start(t, kind, root, croot+"-"+kind)
-		dead := false
 		for _, v := range reqs {
-			if dead {
-				break
-			}
 			val := strings.Join(v.V, "")
 			aes := aeFull
 			if v.Has || v.Ims == "at" || v.Ims == "after" {
 				aes = aeShort
 			}
 			for _, ae := range aes {
-				ok := c24Req(srv, v, val, imsVal[v.Ims], ae, contents[v.N])
+				c24Req(srv, v, val, imsVal[v.Ims], ae, contents[v.N], true, "")
 				nreq++
 				if v.Has || v.Ims != "none" || ae != "-" || v.M == "HEAD" {
 					nreqNontriv++
 				}
-				if !ok {
-					dead = true
-					break
-				}
 			}
 		}
 		srv.Close()
+		c24Flush()
+
+		// (2) request sequences on one handler and one file (fresh handler per file size so
+		// that the cached file and its pooled readers start clean); each step is compared
+		// with the reference of that request alone
+		var cur *c24Srv
+		curN := -1
+		for _, sv := range seqs {
+			if sv.N != curN {
+				if cur != nil {
+					cur.Close()
+				}
+				cur = c24Start(t, kind, root, croot+"-"+kind)
+				curN = sv.N
+			}
+			tag := "seq[" + c24SeqName(sv.Steps) + "]"
+			for i, st := range sv.Steps {
+				c24Req(cur, st, strings.Join(st.V, ""), imsVal[st.Ims], "-", contents[st.N], false, fmt.Sprintf("%s#%d", tag, i+1))
+				nreq++
+				nreqNontriv++
+			}
+			nseq++
+		}
+		if cur != nil {
+			cur.Close()
+		}
+		c24Flush()
+
+		// (3) several readers of the same file alive at once: the first step runs on K
+		// connections concurrently (held at the gate until all K handlers hold a reader), then
+		// the second step is sent K+1 times one after the other, so that every pooled reader is
+		// picked up again
+		const K = 3
+		for _, sv := range seqs {
+			if len(sv.Steps) != 2 || sv.N <= maxSmallFileSize {
+				continue
+			}
+			ps := c24Start(t, kind, root, croot+"-"+kind)
+			tag := "pooled[" + c24SeqName(sv.Steps) + "]"
+			first, second := sv.Steps[0], sv.Steps[1]
+			ps.arm(K)
+			var wg sync.WaitGroup
+			type res struct {
+				r   *c24Resp
+				err error
+			}
+			out := make([]res, K)
+			for i := 0; i < K; i++ {
+				wg.Add(1)
+				go func(i int) {
+					defer wg.Done()
+					c, err := ps.ln.Dial()
+					if err != nil {
+						out[i].err = err
+						return
+					}
+					defer c.Close()
+					c.SetDeadline(time.Now().Add(90 * time.Second)) //nolint:errcheck
+					if _, err := c.Write(c24Wire(first.M, fmt.Sprintf("/f%d.txt", first.N), strings.Join(first.V, ""), first.Has, imsVal[first.Ims], "-")); err != nil {
+						out[i].err = err
+						return
+					}
+					out[i].r, out[i].err = c24ReadResp(bufio.NewReader(c), first.M)
+				}(i)
+			}
+			wg.Wait()
+			ps.arm(0)
+			for i := 0; i < K; i++ {
+				c24Judge(ps, first, strings.Join(first.V, ""), "-", contents[first.N], out[i].r, out[i].err, fmt.Sprintf("%s#1.%d", tag, i+1))
+				nreq++
+			}
+			for i := 0; i <= K; i++ {
+				c24Req(ps, second, strings.Join(second.V, ""), imsVal[second.Ims], "-", contents[second.N], false, fmt.Sprintf("%s#2.%d", tag, i+1))
+				nreq++
+			}
+			nreqNontriv += 2*K + 1
+			npooled++
+			ps.Close()
+		}
+		c24Flush()
 	}
 	vfStat(npbr+nrand+nreq, npbrNontriv+nreqNontriv, vfRec{"parsebyterange_vectors": npbr, "parsebyterange_random": nrand,
-		"fs_requests": nreq, "fs_kinds": strings.Join(kinds, ","), "file_sizes": len(contents)})
+		"fs_requests": nreq, "fs_sequences": nseq, "fs_pooled_reader_sequences": npooled, "fs_kinds": strings.Join(kinds, ","), "file_sizes": len(contents)})
 	vfDone()
 }
+
+// c24Flush makes the records written so far durable (the common writer only flushes in vfDone).
+func c24Flush() {
+	vfOut.mu.Lock()
+	vfOut.w.Flush()
+	vfOut.mu.Unlock()
+}
+
+func c24SeqName(steps []c24Vec) string {
+	var parts []string
+	for _, st := range steps {
+		x := st.M
+		if st.Has {
+			x += " " + strings.Join(st.V, "")
+		}
+		if st.Ims != "none" {
+			x += " ims=" + st.Ims
+		}
+		parts = append(parts, x)
+	}
+	return strings.Join(parts, " ; ")
+}
+
+var c24PbrInv int
 
 func c24Pbr(v c24Vec) {
 	val := strings.Join(v.V, "")
 	s, e, err := ParseByteRange([]byte(val), v.N)
 	key := fmt.Sprintf("%s:%d", val, v.N)
 	if err == nil && !(0 <= s && s <= e && e < v.N) {
+		if c24PbrInv++; c24PbrInv > 40 {
+			return // enough examples; keep room for the other kinds of violations
+		}
 		vfViol("pbr-inv:"+key, fmt.Sprintf("ParseByteRange(%q, %d) accepted start=%d end=%d, violating 0 <= start <= end < length", val, v.N, s, e),
 			vfRec{"range": val, "len": v.N, "s": s, "e": e})
 		return
@@ -352,21 +545,58 @@ func c24In(st []int, x int) bool {
 	return false
 }
 
-// c24Req sends one request (and, for HEAD, its GET twin); returns false if the connection died.
-func c24Req(srv *c24Srv, v c24Vec, val, ims, ae string, content []byte) bool {
+// c24Req sends one request (and, when twin is set, for HEAD its GET twin) and judges the answer.
+func c24Req(srv *c24Srv, v c24Vec, val, ims, ae string, content []byte, twin bool, tag string) {
 	path := fmt.Sprintf("/f%d.txt", v.N)
+	r, err := srv.do(v.M, path, val, v.Has, ims, ae)
+	if !c24Judge(srv, v, val, ae, content, r, err, tag) || !twin || v.M != "HEAD" {
+		return
+	}
 	key := func(what string) string {
 		return fmt.Sprintf("fs:%s:%s:n=%d:range=%q:ims=%s:ae=%q:%s", what, v.M, v.N, val, v.Ims, ae, srv.kind)
 	}
+	cas := vfRec{"method": v.M, "size": v.N, "range": val, "has_range": v.Has, "ims": v.Ims, "accept_encoding": ae, "fs": srv.kind}
+	g, err := srv.do("GET", path, val, v.Has, ims, ae)
+	if err != nil {
+		vfViol(key("no-response"), "GET twin: no complete, parsable response: "+err.Error(), cas)
+		return
+	}
+	if g.status != r.status {
+		vfViol(key("head-status"), fmt.Sprintf("HEAD status %d, GET status %d", r.status, g.status), cas)
+		return
+	}
+	for _, h := range c24CmpHeaders {
+		if g.hdr[h] != r.hdr[h] {
+			vfViol(key("head-header:"+h), fmt.Sprintf("HEAD has %s: %q, GET has %q (status %d)", h, r.hdr[h], g.hdr[h], r.status), cas)
+		}
+	}
+}
+
+// c24Judge compares one response with the reference; returns false if there was none.
+func c24Judge(srv *c24Srv, v c24Vec, val, ae string, content []byte, r *c24Resp, err error, tag string) bool {
+	path := fmt.Sprintf("/f%d.txt", v.N)
+	key := func(what string) string {
+		k := fmt.Sprintf("fs:%s:%s:n=%d:range=%q:ims=%s:ae=%q:%s", what, v.M, v.N, val, v.Ims, ae, srv.kind)
+		if tag != "" {
+			k += ":" + tag
+		}
+		return k
+	}
 	cas := vfRec{"method": v.M, "size": v.N, "range": val, "has_range": v.Has, "ims": v.Ims, "accept_encoding": ae, "fs": srv.kind,
 		"allowed_status": v.St, "class": v.Cls}
-	r, err := srv.do(v.M, path, val, v.Has, ims, ae)
+	if tag != "" {
+		cas["sequence"] = tag
+	}
 	if err != nil {
-		vfViol(key("no-response"), "no parsable response: "+err.Error(), cas)
+		vfViol(key("no-response"), fmt.Sprintf("%s %s Range=%q: no complete, parsable response (the server dropped the connection or sent a short body): %v", v.M, path, val, err), cas)
 		return false
 	}
 	cas["status"] = r.status
 	cas["headers"] = r.hdr
+	if p, ok := r.hdr["X-Verif-Panic"]; ok {
+		vfViol(strings.Replace(key("crash"), "fs:crash", "crash", 1), fmt.Sprintf("%s %s Range=%q (file of %d bytes, If-Modified-Since %s): the FS handler panicked: %s", v.M, path, val, v.N, v.Ims, p), cas)
+		return true
+	}
 	if !c24In(v.St, r.status) {
 		vfViol(key("status"), fmt.Sprintf("%s %s Range=%q (file of %d bytes, If-Modified-Since %s): status %d, allowed %v [Content-Range %q, Content-Length %s]",
 			v.M, path, val, v.N, v.Ims, r.status, v.St, r.hdr["Content-Range"], r.hdr["Content-Length"]), cas)
@@ -404,30 +634,16 @@ func c24Req(srv *c24Srv, v c24Vec, val, ims, ae string, content []byte) bool {
 			if r.hdr["Content-Length"] != strconv.Itoa(len(r.body)) {
 				vfViol(key("content-length"), fmt.Sprintf("200 with Content-Length %s and %d body bytes", r.hdr["Content-Length"], len(r.body)), cas)
 			}
+		} else if enc == "" && r.hdr["Content-Length"] != strconv.Itoa(len(content)) {
+			vfViol(key("content-length"), fmt.Sprintf("HEAD 200 (unencoded) with Content-Length %s for a file of %d bytes", r.hdr["Content-Length"], len(content)), cas)
 		}
 	case 304:
 		if len(r.body) != 0 {
 			vfViol(key("304-body"), fmt.Sprintf("304 with %d body bytes", len(r.body)), cas)
 		}
 	}
-	if v.M == "HEAD" {
-		if len(r.body) != 0 {
-			vfViol(key("head-body"), fmt.Sprintf("HEAD answered with %d body bytes", len(r.body)), cas)
-		}
-		g, err := srv.do("GET", path, val, v.Has, ims, ae)
-		if err != nil {
-			vfViol(key("no-response"), "GET twin: no parsable response: "+err.Error(), cas)
-			return false
-		}
-		if g.status != r.status {
-			vfViol(key("head-status"), fmt.Sprintf("HEAD status %d, GET status %d", r.status, g.status), cas)
-			return true
-		}
-		for _, h := range c24CmpHeaders {
-			if g.hdr[h] != r.hdr[h] {
-				vfViol(key("head-header:"+h), fmt.Sprintf("HEAD has %s: %q, GET has %q (status %d)", h, r.hdr[h], g.hdr[h], r.status), cas)
-			}
-		}
+	if v.M == "HEAD" && len(r.body) != 0 {
+		vfViol(key("head-body"), fmt.Sprintf("HEAD answered with %d body bytes", len(r.body)), cas)
 	}
 	return true
 }
